@@ -76,3 +76,19 @@ func c06sigTypes(s *types.Signature) []*types.Type {
 }
 func c06nameOf(s string) types.Name              { return parser.GoNameToName(s) }
 func c20comparable(t *types.Type) (bool, bool) { return t.IsComparable(), true }
+
+func c05load(g *Gen, i int, path string, files map[string]string, names []string) (types.Universe, error) {
+	dir := filepath.Join(os.Getenv("VERIF_WORK"), fmt.Sprintf("c05m%d", i))
+	defer os.RemoveAll(dir)
+	d := filepath.Join(dir, strings.TrimPrefix(path, "ex.test/"))
+	os.MkdirAll(d, 0755)
+	os.WriteFile(filepath.Join(dir, "go.mod"), []byte("module ex.test\n\ngo 1.20\n"), 0644)
+	for _, n := range names {
+		os.WriteFile(filepath.Join(d, n), []byte(files[n]), 0644)
+	}
+	p := parser.New()
+	if err := p.LoadPackagesWithConfigForTesting(&packages.Config{Dir: dir, Env: append(os.Environ(), "GOFLAGS=-mod=mod", "GOWORK=off")}, path); err != nil {
+		return nil, err
+	}
+	return p.NewUniverse()
+}
